@@ -78,4 +78,15 @@ theorem notes_flatMap_disconnect (cfg : Cfg) (reason : Str) (l : List (Ns × J))
   | nil => rfl
   | cons a l ih => simp [List.flatMap_cons, ih]
 
+/-- starting the reconnection effort touches nothing but its own flag -/
+theorem startEffort_eq (c : Cli) :
+    startEffort c = (c, []) ∨ startEffort c = ({ c with effort := true }, [.effort]) := by
+  unfold startEffort; split <;> simp
+
+@[simp] theorem notes_effort (os : List Out) : notes (.effort :: os) = notes os := by
+  simp [notes_cons, noteOf]
+
+theorem notes_startEffort (c : Cli) : notes (startEffort c).2 = [] := by
+  rcases startEffort_eq c with h | h <;> rw [h] <;> simp
+
 end Sio.Client
